@@ -1,31 +1,21 @@
-use raqote::*;
-fn show(p: &Path, aa: bool) {
-    let mut dt = DrawTarget::new(4, 4);
-    dt.fill(p, &Source::Solid(SolidSource { r: 255, g: 255, b: 255, a: 255 }), &DrawOptions { antialias: if aa { AntialiasMode::Gray } else { AntialiasMode::None }, ..DrawOptions::new() });
-    for y in 0..4 { println!("{:?}", (0..4).map(|x| dt.get_data()[y*4+x] >> 24).collect::<Vec<_>>()); }
-    println!();
-}
+use rqv::props::c04::*;
+use rqv::stroke_model::*;
 fn main() {
-    let mut pb = PathBuilder::new();
-    pb.move_to(1.0, 0.0);
-    pb.cubic_to(1.0, 0.0, 1.0, 0.0, 1.0, 2.0);
-    pb.line_to(1.0, 0.0);
-    let p = pb.finish();
-    show(&p, false); show(&p, true);
-    // same thing as quads
-    let mut pb = PathBuilder::new();
-    pb.move_to(1.0, 0.0);
-    pb.quad_to(1.0, 0.0, 1.0, 2.0);
-    pb.line_to(1.0, 0.0);
-    show(&pb.finish(), true);
-    let mut pb = PathBuilder::new();
-    pb.move_to(1.0, 0.0);
-    pb.quad_to(1.0, 0.5, 1.0, 2.0);
-    pb.line_to(1.0, 0.0);
-    show(&pb.finish(), true);
-    let mut pb = PathBuilder::new();
-    pb.move_to(1.5, 0.0);
-    pb.quad_to(1.5, 1.0, 1.5, 2.0);
-    pb.line_to(1.5, 0.0);
-    show(&pb.finish(), true);
+    let f = std::env::args().nth(1).unwrap();
+    let v: serde_json::Value = serde_json::from_str(&std::fs::read_to_string(f).unwrap()).unwrap();
+    let c: Case = serde_json::from_value(v["case"].clone()).unwrap();
+    let got = render(&c);
+    let polys = polylines(&c.path, 0.01);
+    let margin = if c.path.has_curves() { 1.0 } else { 0.5 };
+    let vd = verdicts(&polys, c.style.width.0 as f64, c.style.cap, c.style.join, c.style.miter.0 as f64, &c.xf, c.w, c.h, margin).unwrap();
+    for y in 0..c.h {
+        let mut s = String::new();
+        for x in 0..c.w {
+            let i = (y * c.w + x) as usize;
+            let a = got[i] >> 24;
+            let ch = match vd[i] { 1 => '#', 0 => '.', _ => '?' };
+            s += &format!("{}{:02x} ", ch, a);
+        }
+        println!("{}", s);
+    }
 }
